@@ -365,11 +365,16 @@ func (lp *LoadedPkg) fileSrc(name string) []byte {
 func (eng *Engine) load(pkgPaths []string) error {
 	// group by module dir
 	byMod := map[string][]string{}
+	replaced := replacedModuleDirs()
 	for _, p := range pkgPaths {
 		dir := eng.dirOfPkg(p)
 		mod := repoRoot
 		if dir != "" {
 			mod = moduleDirFor(dir)
+			if replaced[mod] {
+				// module replaced by a local directory in lnd's go.mod: part of the main build
+				mod = repoRoot
+			}
 		}
 		byMod[mod] = append(byMod[mod], p)
 	}
@@ -412,10 +417,52 @@ func (eng *Engine) load(pkgPaths []string) error {
 	return nil
 }
 
+// replacedModuleDirs: module directories under /repo that lnd's go.mod replaces with local paths.
+func replacedModuleDirs() map[string]bool {
+	out := map[string]bool{}
+	data, err := os.ReadFile(filepath.Join(repoRoot, "go.mod"))
+	if err != nil {
+		return out
+	}
+	for _, l := range strings.Split(string(data), "\n") {
+		f := strings.Fields(l)
+		if len(f) == 4 && f[0] == "replace" && f[2] == "=>" && strings.HasPrefix(f[3], "./") {
+			out[filepath.Join(repoRoot, f[3])] = true
+		}
+	}
+	return out
+}
+
+func replacedModulePaths() map[string]string {
+	out := map[string]string{}
+	data, err := os.ReadFile(filepath.Join(repoRoot, "go.mod"))
+	if err != nil {
+		return out
+	}
+	for _, l := range strings.Split(string(data), "\n") {
+		f := strings.Fields(l)
+		if len(f) == 4 && f[0] == "replace" && f[2] == "=>" && strings.HasPrefix(f[3], "./") {
+			out[f[1]] = filepath.Join(repoRoot, f[3])
+		}
+	}
+	return out
+}
+
 func (eng *Engine) dirOfPkg(path string) string {
 	for _, cf := range eng.contractFiles {
 		if cf.PkgPath == path {
 			return filepath.Dir(cf.Path)
+		}
+	}
+	for mod, dir := range replacedModulePaths() {
+		if path == mod {
+			return dir
+		}
+		if strings.HasPrefix(path, mod+"/") {
+			d := filepath.Join(dir, strings.TrimPrefix(path, mod+"/"))
+			if _, err := os.Stat(d); err == nil {
+				return d
+			}
 		}
 	}
 	const lnd = "github.com/lightningnetwork/lnd"
@@ -497,6 +544,13 @@ func (e *Enc) run() {
 			e.entryKey(k, e.keySorts[k])
 		}
 	}
+	if e.fc != nil {
+		for _, u := range e.fc.Uses {
+			if !strings.Contains(u, "(") {
+				e.useLemma(u, nil, nil)
+			}
+		}
+	}
 	fr := e.newFrame(fn, nil)
 	fr.isTop = true
 	e.top = fr
@@ -524,6 +578,20 @@ func (e *Enc) run() {
 			pres = append(pres, g)
 		}
 		e.addCover("pre", True, "precondition is satisfiable")
+		// instantiated lemmas: uses NAME(args) with args evaluated in the entry state
+		for _, u := range e.fc.Uses {
+			if strings.Contains(u, "(") {
+				x, err := parseCExpr(u)
+				if err != nil {
+					panic(err.Error())
+				}
+				call, ok := x.(CCall)
+				if !ok {
+					panic("uses: NAME(args) expected: " + u)
+				}
+				e.useLemma(cexprString(call.Fun), call.Args, ctx)
+			}
+		}
 	}
 	e.encodeBody(fr, True, entry)
 	if e.fc != nil {
@@ -553,4 +621,46 @@ func (e *Enc) collectParamRefs(v Val) {
 			e.collectParamRefs(f)
 		}
 	}
+}
+
+// useLemma assumes a lemma/axiom: quantified over its parameters (args == nil) or instantiated.
+func (e *Enc) useLemma(name string, args []CExpr, ctx *ExprCtx) {
+	for _, lm := range e.eng.lemmas {
+		if lm.Name != name {
+			continue
+		}
+		if args == nil {
+			e.assumeLemma(lm)
+			return
+		}
+		if len(args) != len(lm.Params) {
+			panic("uses " + name + ": wrong number of arguments")
+		}
+		bound := map[string]TV{}
+		for i, p := range lm.Params {
+			tv := ctx.expr(args[i])
+			t, ok := tv.V.(T)
+			if !ok {
+				t = e.scalar(tv.V)
+			}
+			var typ types.Type
+			if p.Typ == "bool" {
+				typ = types.Typ[types.Bool]
+			}
+			bound[p.Name] = TV{V: t, Typ: typ}
+		}
+		var pkg *types.Package
+		if lp := e.eng.pkgByPath[lm.Pkg]; lp != nil {
+			pkg = lp.Pkg.Types
+		}
+		lctx := &ExprCtx{e: e, st: e.entry, old: e.entry, bound: bound, pkg: pkg}
+		e.s.Assume(lctx.boolExpr(lm.Body.Expr))
+		if lm.Axiom {
+			e.note("axiom (assumed, instantiated): " + lm.Name + ": " + lm.Body.Text)
+		} else {
+			e.note("lemma instance used as a fact (proved separately as " + lastPathElem(lm.Pkg) + ".lemma/" + lm.Name + ")")
+		}
+		return
+	}
+	panic("uses: unknown lemma/axiom " + name)
 }
